@@ -6,6 +6,11 @@ VERIF = os.path.dirname(os.path.dirname(os.path.abspath(__file__)))
 ALL = ["C%02d" % i for i in range(1, 21)]
 
 CLAIMED = {
+ "C14": dict(
+   technique="TLA+ spec GroupFilter.tla (three-valued reference evaluation of filter lines: member / not member / invalid element reached; first-line annotation) enumerated by TLC; every (pool, group) vector rendered to dae configuration text and run through config_parser, config.New, DialerSet.FilterAndAnnotate, NewDialerSelectionPolicyFromGroupParam and DialerGroup.Select",
+   text="TLC enumerates 4 node pools (duplicates, empty names, empty pool) x every single filter line over the condition universe (name/subtag/unknown input, negation, exact/keyword/regex/bad-regex/unknown-key alternatives singly and in pairs, 7 annotation lists incl. malformed ones) and simulated groups of up to 3 lines, and emits members, order, annotations or the error obligation; the harness compares the real result member by member. The six policies, fixed(i) in/out of range and malformed policies are checked against construction and selection.",
+   note="Error obligation read with left-to-right evaluation order (see DESIGN). Regex subset. Trusted: TLC.",
+   design="§3 C14"),
  "C18": dict(
    technique="TLA+ spec DialTarget.tla (the dial-target decision table written from the property, TableSane invariant) enumerated exhaustively by TLC; every input combination concretised to several sniffed strings and run through ChooseDialTarget of a real ControlPlane with DNS knowledge / real-domain caches populated",
    text="TLC enumerates the full product of dial modes x outbound kinds x destinations x sniffed-value classes x knowledge states (648 states) and emits the required target shape, dialIp and reroute obligations; the harness builds the corresponding control plane state and compares ChooseDialTarget's result, plus an independent host:port well-formedness check of every target.",
